@@ -24,7 +24,6 @@ import (
 	"google.golang.org/grpc/status"
 	"google.golang.org/protobuf/types/known/anypb"
 
-	"istio.io/istio/pilot/pkg/features"
 	istiogrpc "istio.io/istio/pilot/pkg/grpc"
 	"istio.io/istio/pkg/model"
 	"istio.io/istio/pkg/util/sets"
@@ -382,8 +381,12 @@ func ShouldRespond(w Watcher, id string, request *discovery.DiscoveryRequest) (b
 	// 1. When Envoy starts for the first time, it sends an initial Discovery request to Istiod.
 	// 2. When Envoy reconnects to a new Istiod that does not have information about this typeUrl
 	// i.e. non empty response nonce.
+	// 3. When nothing has been sent for this watch yet (previousInfo.NonceSent is empty: we previously had
+	// shouldRespond=true but didn't send any resources). The nonce in the request then refers to a response
+	// that preceded the watch (Envoy keeps its nonce across an unsubscribe or a reconnect); it cannot be stale
+	// with respect to this watch, and dropping the request would lose the names it asks for.
 	// We should always respond with the current resource names.
-	if request.ResponseNonce == "" || previousInfo == nil {
+	if request.ResponseNonce == "" || previousInfo == nil || previousInfo.NonceSent == "" {
 		log.Debugf("ADS:%s: INIT/RECONNECT %s %s %s", stype, id, request.VersionInfo, request.ResponseNonce)
 		w.NewWatchedResource(request.TypeUrl, request.ResourceNames)
 		return true, emptyResourceDelta
@@ -391,13 +394,7 @@ func ShouldRespond(w Watcher, id string, request *discovery.DiscoveryRequest) (b
 
 	// If there is mismatch in the nonce, that is a case of expired/stale nonce.
 	// A nonce becomes stale following a newer nonce being sent to Envoy.
-	// previousInfo.NonceSent can be empty if we previously had shouldRespond=true but didn't send any resources.
 	if request.ResponseNonce != previousInfo.NonceSent {
-		if features.EnableUnsafeAssertions && previousInfo.NonceSent == "" {
-			// Assert we do not end up in an invalid state
-			log.Fatalf("ADS:%s: REQ %s Expired nonce received %s, but we never sent any nonce", stype,
-				id, request.ResponseNonce)
-		}
 		log.Debugf("ADS:%s: REQ %s Expired nonce received %s, sent %s", stype,
 			id, request.ResponseNonce, previousInfo.NonceSent)
 		ExpiredNonce.With(typeTag.Value(model.GetMetricType(request.TypeUrl))).Increment()
